@@ -1,400 +1,13 @@
 /-
-The translated Python functions (`TLX/Gen/Translated.lean`, regenerated from the tree under test on every run by
-`harness/translate.py`) EQUAL the hand-written model functions the property theorems are about.
-
-Every theorem is `<python name>_eq_model`; the encoding maps between Python-level values and model values are the few
-trivial definitions at the top. A change of the Python source that alters what one of these functions computes alters
-the generated definition and the equality stops checking.
+The translated Python functions (`TLX/Gen/Translated/<Group>.lean`, regenerated from the tree under test on every run by
+`harness/translate.py`) EQUAL the hand-written model functions the property theorems are about: one module per group, so
+that a check proves only the groups its property rests on (`translate.BY_CHECK`). This file only collects them.
 -/
-import TLX.Gen.Translated
-import TLX.Lemmas.PyRt
-import TLX.Lemmas.Translated
-import TLX.Quic.Dissect
-import TLX.Quic.Varint
-import TLX.Quic.Session
-import TLX.MainLoop
-import TLX.Session
-import TLX.TcpOut
-namespace TLX.Props.Translated
-open TLX TLX.PyRt TLX.Lemmas.Translated TLX.Quic.PktNum
-
-/-! ### encodings -/
-
-/-- a model's `none` for IndexError -/
-def ofOpt {α : Type} : Option α → Except Err α
-  | none => .error .index
-  | some a => .ok a
-
-/-- functions of `datagram_data[0]`: IndexError on `b""`, else the model's function of the first byte -/
-def onFirst {α : Type} (d : Bytes) (f : UInt8 → α) : Except Err α :=
-  match d with
-  | [] => .error .index
-  | fb :: _ => .ok (f fb)
-
-/-! ### tlexport/quic/quic_dissector.py -/
-
-/-- `get_header_type` is the model's `isLong` of the first byte -/
-theorem get_header_type_eq_model (d : Bytes) :
-    Gen.Py.get_header_type d = onFirst d fun fb => if Quic.Dissect.isLong fb then .long else .short := by
-  cases d with
-  | nil => simp [Gen.Py.get_header_type, onFirst]
-  | cons fb r =>
-    simp only [Gen.Py.get_header_type, getItem_cons_zero, onFirst]
-    revert fb
-    apply forall_u8
-    decide +kernel
-
-example : Gen.Py.get_header_type [0xc3, 0, 0, 0, 1] = .ok .long ∧ Gen.Py.get_header_type [0x43] = .ok .short := by decide
-
-/-- `get_packet_type` is the model's `packetType` of the first byte (never `None`) -/
-theorem get_packet_type_eq_model (d : Bytes) :
-    Gen.Py.get_packet_type d = onFirst d fun fb => some (Quic.Dissect.packetType fb) := by
-  cases d with
-  | nil => simp [Gen.Py.get_packet_type, onFirst]
-  | cons fb r =>
-    simp only [Gen.Py.get_packet_type, getItem_cons_zero, onFirst]
-    revert fb
-    apply forall_u8
-    decide +kernel
-
-example : Gen.Py.get_packet_type [0xe3] = .ok (some .handshake) ∧ Gen.Py.get_packet_type [] = .error .index := by decide
-
-/-! ### tlexport/quic/quic_decode.py -/
-
-theorem get_variable_length_int_length_eq_model (b : Bytes) :
-    Gen.Py.get_variable_length_int_length b = ofOpt (Quic.Varint.getVarintLength b) := by
-  cases b with
-  | nil => simp [Gen.Py.get_variable_length_int_length, Quic.Varint.getVarintLength, ofOpt]
-  | cons x r =>
-    simp [Gen.Py.get_variable_length_int_length, Quic.Varint.getVarintLength, ofOpt, Quic.Varint.varintLen]
-
-example : Gen.Py.get_variable_length_int_length [0x9d, 0x7f] = .ok 4 := by decide
-
-theorem decode_variable_length_int_eq_model (b : Bytes) :
-    Gen.Py.decode_variable_length_int b = ofOpt (Quic.Varint.decodeVarint b) := by
-  cases b with
-  | nil => simp [Gen.Py.decode_variable_length_int, Quic.Varint.decodeVarint, ofOpt]
-  | cons x r =>
-    simp only [Gen.Py.decode_variable_length_int, getItem_cons_zero, forE_be, Quic.Varint.decodeVarint,
-      Quic.Varint.varintLen, List.drop_succ_cons, List.drop_zero, tryE_ok, List.length_cons, Nat.add_sub_cancel]
-    by_cases h : r.length < 1 <<< (x.toNat >>> 6) - 1 <;> simp [h, ofOpt]
-
-example : Gen.Py.decode_variable_length_int [0x7b, 0xbd] = .ok 15293 ∧
-    Gen.Py.decode_variable_length_int [0x7b] = .error .index := by decide
-
-/-! ### tlexport/quic/quic_session.py -/
-
-/-- `get_full_packet_number`, the whole method (table read, shortcut, A.3 arithmetic on Python integers with `& ~ | <<`,
-    table update, `to_bytes(8)`): for a packet-number field of 1–4 bytes and table entries below 2^62 it never raises,
-    returns the field itself on the shortcut and else the 8-byte encoding of the model's `implDecode`, and leaves the
-    model's `implUpdate` in the entry of the packet's direction (the other entry untouched). -/
-theorem get_full_packet_number_eq_model (srv : Bool) (pn : Bytes) (pnS pnC : Nat)
-    (hn : 1 ≤ pn.length ∧ pn.length ≤ 4) (hS : pnS < 2 ^ 62) (hC : pnC < 2 ^ 62) :
-    Gen.Py.get_full_packet_number srv pn (Int.ofNat pnS) (Int.ofNat pnC) =
-      .ok (if Bytes.beNat pn > (if srv then pnS else pnC) ∧ (if srv then pnS else pnC) = 0 then pn
-           else Bytes.ofNatBE 8 (implDecode (2 ^ (8 * pn.length)) (2 ^ 62) (if srv then pnS else pnC) (Bytes.beNat pn)))
-        { pn_server := if srv then Int.ofNat (implUpdate pnS (implDecode (2 ^ (8 * pn.length)) (2 ^ 62) pnS (Bytes.beNat pn))) else Int.ofNat pnS,
-          pn_client := if srv then Int.ofNat pnC else Int.ofNat (implUpdate pnC (implDecode (2 ^ (8 * pn.length)) (2 ^ 62) pnC (Bytes.beNat pn))) } := by
-  have ht : Bytes.beNat pn < 2 ^ (8 * pn.length) := by
-    have := beNat_lt pn
-    rwa [show (256 : Nat) = 2 ^ 8 by rfl, ← Nat.pow_mul] at this
-  have hw : (1 : Nat) <<< (pn.length * 8) = 2 ^ (8 * pn.length) := by
-    rw [Nat.shiftLeft_eq, Nat.one_mul, Nat.mul_comm]
-  have hb : (1 : Nat) <<< 62 = 2 ^ 62 := by rw [Nat.shiftLeft_eq, Nat.one_mul]
-  have hW : 2 ≤ 2 ^ (8 * pn.length) := by
-    have : 2 ^ 1 ≤ 2 ^ (8 * pn.length) := Nat.pow_le_pow_right (by omega) (by omega)
-    omega
-  cases srv
-  · simp only [Gen.Py.get_full_packet_number, hw, hb, Bool.false_eq_true, if_false, mask_or' _ _ _ ht, Bool.and_eq_true,
-      decide_eq_true_eq, Bool.not_eq_true', decide_eq_false_iff_not, Int.not_lt, Int.not_le, pn_arith _ _ _ _ hW ht]
-    have hR : rfcDecode (2 ^ (8 * pn.length)) (2 ^ 62) pnC (Bytes.beNat pn) < 256 ^ 8 := by
-      have h1 := rfcDecode_lt (2 ^ (8 * pn.length)) (2 ^ 62) pnC (Bytes.beNat pn) (by omega) ht
-      have h2 : 2 ^ (8 * pn.length) ≤ 2 ^ 32 := Nat.pow_le_pow_right (by omega) (by omega)
-      generalize 2 ^ (8 * pn.length) = W at *
-      generalize rfcDecode W (2 ^ 62) pnC (Bytes.beNat pn) = R at *
-      omega
-    have := pn_finish false pn pnS pnC _ hR (by simp only [implDecode]; rfl)
-    simpa [apply_ite Prod.fst, apply_ite Prod.snd] using this
-  · simp only [Gen.Py.get_full_packet_number, hw, hb, if_true, mask_or' _ _ _ ht, Bool.and_eq_true,
-      decide_eq_true_eq, Bool.not_eq_true', decide_eq_false_iff_not, Int.not_lt, Int.not_le, pn_arith _ _ _ _ hW ht]
-    have hR : rfcDecode (2 ^ (8 * pn.length)) (2 ^ 62) pnS (Bytes.beNat pn) < 256 ^ 8 := by
-      have h1 := rfcDecode_lt (2 ^ (8 * pn.length)) (2 ^ 62) pnS (Bytes.beNat pn) (by omega) ht
-      have h2 : 2 ^ (8 * pn.length) ≤ 2 ^ 32 := Nat.pow_le_pow_right (by omega) (by omega)
-      generalize 2 ^ (8 * pn.length) = W at *
-      generalize rfcDecode W (2 ^ 62) pnS (Bytes.beNat pn) = R at *
-      omega
-    have := pn_finish true pn pnS pnC _ hR (by simp only [implDecode]; rfl)
-    simpa [apply_ite Prod.fst, apply_ite Prod.snd] using this
-
-
-/-- RFC 9000 A.3's own example, through the translated code: largest 0xa82f30ea, field 0x9b32 -/
-example : Gen.Py.get_full_packet_number true [0x9b, 0x32] 0xa82f30ea 0 =
-    .ok [0, 0, 0, 0, 0xa8, 0x2f, 0x9b, 0x32] { pn_server := 0xa82f9b32, pn_client := 0 } := by decide +kernel
-example : Gen.Py.get_full_packet_number false [0x07] 5 0 = .ok [0x07] { pn_server := 5, pn_client := 7 } := by decide +kernel
-
-/-- the model state seen as the record of the four attributes `check_key_epoch` writes -/
-def epochsOf {σ : Type} (s : Quic.Session.St σ) : Gen.Py.check_key_epoch_flip.St :=
-  { epoch_server := s.epochServer, last_key_phase_server := s.lastPhaseServer,
-    epoch_client := s.epochClient, last_key_phase_client := s.lastPhaseClient }
-
-/-- `check_key_epoch`, first statement (`if isserver: … else: …`): the model's `flipEpoch` -/
-theorem check_key_epoch_flip_eq_model {σ : Type} (s : Quic.Session.St σ) (phase : Option Nat) (srv : Bool) :
-    Gen.Py.check_key_epoch_flip phase srv s.epochServer s.lastPhaseServer s.epochClient s.lastPhaseClient =
-      epochsOf (Quic.Session.flipEpoch s phase srv) := by
-  unfold Gen.Py.check_key_epoch_flip Quic.Session.flipEpoch epochsOf
-  cases srv <;> simp only [Bool.false_eq_true, if_false, if_true, decide_eq_true_eq] <;> split <;> simp_all
-
-example : Gen.Py.check_key_epoch_flip (some 1) true 0 (some 0) 0 (some 0) =
-    { epoch_server := 1, last_key_phase_server := some 1, epoch_client := 0, last_key_phase_client := some 0 } := by decide
-
-/-- `check_key_epoch`, the test of the second `if`: the condition under which the model's `extendGens` appends a
-    key generation -/
-theorem check_key_epoch_extend_test_eq_model (ec es : Nat) (gens : List Quic.Session.Dec) :
-    Gen.Py.check_key_epoch_extend_test ec es gens = decide (ec = gens.length ∨ es = gens.length) := by
-  simp [Gen.Py.check_key_epoch_extend_test]
-
-/-- … which is literally the `if` of `extendGens` -/
-theorem extendGens_cond {σ : Type} (P : Quic.Session.Params σ) (s : Quic.Session.St σ) (gens : List Quic.Session.Dec)
-    (h : s.decApp = some gens) (hc : Gen.Py.check_key_epoch_extend_test s.epochClient s.epochServer gens = false) :
-    Quic.Session.extendGens P s = (s, none) := by
-  rw [check_key_epoch_extend_test_eq_model] at hc
-  simp only [decide_eq_false_iff_not] at hc
-  simp [Quic.Session.extendGens, h, hc]
-
-example : Gen.Py.check_key_epoch_extend_test 1 1 [] = false ∧ Gen.Py.check_key_epoch_extend_test 0 0 [] = true := by decide
-
-/-- `packet_isserver` is the model's `packetIsServer`, its `fromClientAddr` being the address test of the third arm -/
-theorem packet_isserver_eq_model {σ : Type} (s : Quic.Session.St σ) (dcid ipSrc clientIp : Bytes) (sport clientPort : Nat) :
-    Gen.Py.packet_isserver dcid s.serverCids s.clientCids ipSrc sport clientIp clientPort =
-      Quic.Session.packetIsServer s (decide (ipSrc = clientIp ∧ sport = clientPort)) dcid := by
-  unfold Gen.Py.packet_isserver Quic.Session.packetIsServer
-  simp only [Bool.and_eq_true, decide_eq_true_eq, Bool.not_eq_true', decide_eq_false_iff_not, gt_iff_lt]
-  repeat' split
-  all_goals simp_all
-
-example : Gen.Py.packet_isserver [1, 2] [[1, 2]] [[9]] [10, 0, 0, 1] 443 [10, 0, 0, 2] 5000 = false ∧
-    Gen.Py.packet_isserver [] [[1, 2]] [[9]] [10, 0, 0, 1] 443 [10, 0, 0, 2] 5000 = true := by decide
-
-/-- `matches_session_dgram(ip_src, ip_dst, sport, dport)` is the model's `Sess.matches` -/
-theorem matches_session_dgram_eq_model {α : Type} (s : MainLoop.Sess α) (p : MainLoop.Pkt) :
-    Gen.Py.matches_session_dgram p.src.ip p.dst.ip p.src.port p.dst.port s.server.ip s.server.port s.client.ip s.client.port =
-      s.matches p := by
-  unfold Gen.Py.matches_session_dgram MainLoop.Sess.matches
-  have he : ∀ a b : MainLoop.Endpoint, (a == b) = (decide (a.ip = b.ip) && decide (a.port = b.port)) := by
-    intro a b
-    cases a; cases b
-    simp only [BEq.beq, MainLoop.Endpoint.mk.injEq]
-    simp [Bool.decide_and]
-  simp only [he]
-  repeat' split
-  all_goals simp_all
-
-example : Gen.Py.matches_session_dgram [10, 0, 0, 2] [10, 0, 0, 1] 5000 443 [10, 0, 0, 1] 443 [10, 0, 0, 2] 5000 = true := by decide
-
-/-! ### tlexport/session.py -/
-
-theorem endpoint_beq (a b : MainLoop.Endpoint) : (a == b) = (decide (a.ip = b.ip) && decide (a.port = b.port)) := by
-  cases a; cases b
-  simp only [BEq.beq, MainLoop.Endpoint.mk.injEq]
-  simp [Bool.decide_and]
-
-/-- `matches_session(packet)` is the model's `Sess.matches` -/
-theorem matches_session_eq_model {α : Type} (s : MainLoop.Sess α) (p : MainLoop.Pkt) :
-    Gen.Py.matches_session p.src.ip p.dst.ip p.src.port p.dst.port s.server.ip s.server.port s.client.ip s.client.port =
-      s.matches p := by
-  unfold Gen.Py.matches_session MainLoop.Sess.matches
-  simp only [endpoint_beq]
-  repeat' split
-  all_goals simp_all
-
-example : Gen.Py.matches_session [10, 0, 0, 1] [10, 0, 0, 2] 443 5000 [10, 0, 0, 1] 443 [10, 0, 0, 2] 5000 = true ∧
-    Gen.Py.matches_session [10, 0, 0, 1] [10, 0, 0, 2] 443 5001 [10, 0, 0, 1] 443 [10, 0, 0, 2] 5000 = false := by decide
-
-/-- `set_client_and_server_ports`: server and client endpoint are the model's `rolesOf`; the MAC addresses and the
-    IPv6 flag (outside `rolesOf`) follow the same choice -/
-theorem set_client_and_server_ports_eq_model (ports : List Int) (p : MainLoop.Pkt) (v6 : Bool) (macSrc macDst : Bytes) :
-    Gen.Py.set_client_and_server_ports ports v6 p.src.ip p.dst.ip p.src.port p.dst.port macSrc macDst =
-      { ipv6 := v6,
-        server_ip := (MainLoop.rolesOf ports p).1.ip, server_port := (MainLoop.rolesOf ports p).1.port,
-        server_mac_addr := if ports.contains (p.src.port : Int) then macSrc else macDst,
-        client_ip := (MainLoop.rolesOf ports p).2.ip, client_port := (MainLoop.rolesOf ports p).2.port,
-        client_mac_addr := if ports.contains (p.src.port : Int) then macDst else macSrc } := by
-  unfold Gen.Py.set_client_and_server_ports MainLoop.rolesOf
-  by_cases h : (p.src.port : Int) ∈ ports <;> simp [h]
-
-example : (Gen.Py.set_client_and_server_ports [443, 44330] false [10, 0, 0, 2] [10, 0, 0, 1] 5000 443 [2] [1]).server_port = 443 ∧
-    (Gen.Py.set_client_and_server_ports [443, 44330] false [10, 0, 0, 1] [10, 0, 0, 2] 443 5000 [1] [2]).server_ip = [10, 0, 0, 1] := by
-  decide
-
-/-- `handle_alert` writes what the model's `alert` writes -/
-theorem handle_alert_eq_model {δ : Type} (s : Session.St δ) (level : UInt8) :
-    Gen.Py.handle_alert level.toNat s.ver s.canDecrypt s.chSeen =
-      { can_decrypt := (Session.alert s level).canDecrypt, client_hello_seen := (Session.alert s level).chSeen } := by
-  unfold Gen.Py.handle_alert Session.alert
-  have h1 : (level.toNat = 1) = (level = 1) := by
-    rw [← UInt8.toNat_inj]; rfl
-  by_cases h : level = 1 <;> by_cases h2 : s.ver = some .tls13 <;> simp [h1, h, h2]
-
-example : Gen.Py.handle_alert 1 (some .tls12) true true = { can_decrypt := true, client_hello_seen := true } ∧
-    Gen.Py.handle_alert 1 (some .tls13) true true = { can_decrypt := false, client_hello_seen := false } ∧
-    Gen.Py.handle_alert 2 (some .tls12) true true = { can_decrypt := false, client_hello_seen := false } := by decide
-
-/-- `handle_tls_client_hello` writes what the model's `clientHello` writes (`record.binary` is the model's `Rec.body`;
-    the emptied `handshake_13_buffer` is the pair of the model's two per-direction buffers) -/
-theorem handle_tls_client_hello_eq_model {δ : Type} (s : Session.St δ) (r : Session.Rec) :
-    Gen.Py.handle_tls_client_hello r.body =
-      { can_decrypt := (Session.clientHello s r).canDecrypt, server_cipher_change := (Session.clientHello s r).srvCC,
-        client_cipher_change := (Session.clientHello s r).cliCC,
-        handshake_13_buffer := ((Session.clientHello s r).hsBufC, (Session.clientHello s r).hsBufS),
-        client_random := (Session.clientHello s r).cr, client_hello_seen := (Session.clientHello s r).chSeen } := rfl
-
-example : (Gen.Py.handle_tls_client_hello ((List.range 40).map UInt8.ofNat)).client_random =
-    some ((List.range' 6 32).map UInt8.ofNat) := by decide
-
-/-- the version choice at the end of `handle_tls_server_hello` is the model's `chooseVersion` on the two version
-    numbers the code reads -/
-theorem server_hello_version_eq_model {δ : Type} (s : Session.St δ) (is13 : Bool) (recVer binary : Bytes) :
-    Gen.Py.server_hello_version is13 recVer binary s.ver s.canDecrypt =
-      { tls_version := (Session.chooseVersion s (Bytes.beNat recVer) (Bytes.beNat (Bytes.slice binary 4 6)) is13).ver,
-        can_decrypt := (Session.chooseVersion s (Bytes.beNat recVer) (Bytes.beNat (Bytes.slice binary 4 6)) is13).canDecrypt } := by
-  unfold Gen.Py.server_hello_version Session.chooseVersion
-  simp only [decide_eq_true_eq]
-  repeat' split
-  all_goals simp_all
-
-example : Gen.Py.server_hello_version true [3, 3] [2, 0, 0, 40, 3, 3] none true = { tls_version := some .tls13, can_decrypt := true } ∧
-    Gen.Py.server_hello_version false [3, 1] [2, 0, 0, 40, 3, 9] (some .tls12) true = { tls_version := some .tls12, can_decrypt := false } := by
-  decide
-
-/-- the first statement of `handle_tls_server_hello` is the model's `latch` -/
-theorem server_hello_latch_eq_model {δ : Type} (s : Session.St δ) :
-    Gen.Py.server_hello_latch s.chSeen s.canDecrypt = { can_decrypt := (Session.latch s).canDecrypt } := by
-  unfold Gen.Py.server_hello_latch Session.latch
-  cases s.chSeen <;> simp
-
-example : Gen.Py.server_hello_latch true false = { can_decrypt := true } ∧
-    Gen.Py.server_hello_latch false false = { can_decrypt := false } := by decide
-
-/-! ### tlexport/main.py -/
-
-/-- how the head of `handle_quic_packet` is left, and with which `dcid` / `quic_version`, per model header -/
-def hdrRes : MainLoop.Hdr → Res Gen.Py.quic_header.St Exit
-  | .tooShort => .ok .ret { dcid := [], quic_version := .unknown }
-  | .long d v => .ok .fall { dcid := d, quic_version := v }
-  | .short => .ok .fall { dcid := [], quic_version := .unknown }
-
-theorem isLong_eq (b0 : UInt8) : Quic.Dissect.isLong b0 = decide ((b0.toNat >>> 7) &&& 1 = 1) := by
-  revert b0
-  apply forall_u8
-  decide +kernel
-
-/-- the head of `handle_quic_packet` (with the translated `get_header_type` for its `header_type`) is the model's
-    `parseHeader1`; the `packet_payload[5]` it reads never raises -/
-theorem quic_header_eq_model (b0 : UInt8) (rest : Bytes) (ht : Quic.HType)
-    (h : Gen.Py.get_header_type (b0 :: rest) = .ok ht) :
-    Gen.Py.quic_header ht (b0 :: rest) = hdrRes (MainLoop.parseHeader1 b0 rest) := by
-  rw [get_header_type_eq_model] at h
-  simp only [onFirst, Except.ok.injEq, isLong_eq] at h
-  subst h
-  unfold Gen.Py.quic_header MainLoop.parseHeader1
-  by_cases hl : (b0.toNat >>> 7) &&& 1 = 1
-  · by_cases h6 : (b0 :: rest).length < 6
-    · simp only [hl, h6, decide_true, if_true, hdrRes]
-    · have h5 : 5 < (b0 :: rest).length := by omega
-      have hn : (5 : Int) = Int.ofNat 5 := rfl
-      simp only [hl, h6, decide_true, decide_false, Bool.false_eq_true, if_true, if_false, hn, getItem_nat,
-        List.getElem?_eq_getElem h5, tryE_ok, hdrRes, MainLoop.versionOf, decide_eq_true_eq]
-      repeat' split
-      all_goals simp_all
-  · simp only [hl, decide_false, Bool.false_eq_true, if_false, reduceCtorEq, hdrRes]
-
-example : Gen.Py.quic_header .long [0xc3, 0, 0, 0, 1, 2, 0xaa, 0xbb, 0] = .ok .fall { dcid := [0xaa, 0xbb], quic_version := .v1 } ∧
-    Gen.Py.quic_header .long [0xc3, 0, 0] = .ok .ret { dcid := [], quic_version := .unknown } := by decide +kernel
-
-/-- the long-header CID test of the session loop is the condition of the model's `cidMatch` -/
-theorem quic_long_cid_test_eq_model (cc sc : List Bytes) (side : MainLoop.Side) (dcid payload : Bytes) (v : MainLoop.Version) :
-    MainLoop.cidMatch cc sc side (.long dcid v) payload =
-      if Gen.Py.quic_long_cid_test dcid cc sc then some dcid else none := by
-  simp [MainLoop.cidMatch, Gen.Py.quic_long_cid_test]
-
-example : Gen.Py.quic_long_cid_test [1] [[1]] [] = true ∧ Gen.Py.quic_long_cid_test [] [[]] [] = false := by decide
-
-/-- the candidate set of a short-header datagram is the model's `shortCandidates` at the model's `Sess.side` -/
-theorem quic_short_candidates_eq_model {α : Type} (s : MainLoop.Sess α) (p : MainLoop.Pkt) (cc sc : List Bytes) :
-    (Gen.Py.quic_short_candidates cc sc (s.matches p) p.src.ip p.src.port s.client.ip s.client.port).candidates =
-      MainLoop.shortCandidates cc sc (s.side p) := by
-  unfold Gen.Py.quic_short_candidates MainLoop.Sess.side
-  simp only [endpoint_beq]
-  repeat' split
-  all_goals simp_all [MainLoop.shortCandidates]
-
-example : (Gen.Py.quic_short_candidates [[1]] [[2]] true [10, 0, 0, 2] 5000 [10, 0, 0, 2] 5000).candidates = [[2]] ∧
-    (Gen.Py.quic_short_candidates [[1]] [[2]] false [10, 0, 0, 2] 5000 [10, 0, 0, 2] 5000).candidates = [[1], [2]] := by decide
-
-/-- the per-candidate test is the model's `cidPrefixOf` -/
-theorem quic_short_cid_test_eq_model (cid payload : Bytes) :
-    Gen.Py.quic_short_cid_test cid payload = MainLoop.cidPrefixOf payload cid := by
-  simp only [Gen.Py.quic_short_cid_test, MainLoop.cidPrefixOf, gt_iff_lt]
-  congr 1
-  rw [Bool.eq_iff_iff]
-  simp
-
-example : Gen.Py.quic_short_cid_test [7, 8] [0x43, 7, 8, 9] = true ∧ Gen.Py.quic_short_cid_test [] [0x43] = false := by decide
-
-/-- how the loop body of `run()` is left for a frame the model ignores -/
-def whyExit : MainLoop.Why → Exit
-  | .emptyTcp => .cont
-  | .emptyUdp => .cont
-  | .badCsumUdp => .cont
-  | .badCsumTcp => .fall
-  | .noFixedBit => .fall
-  | .notTcpUdp => .fall
-
-/-- the handler called and the exit taken, per model class of a frame -/
-def classRes {κ : Type} : MainLoop.Class κ → Res Gen.Py.run_classify.St Exit
-  | .tls _ => .ok .fall { acts := [.tls] }
-  | .quic _ _ _ => .ok .fall { acts := [.quic] }
-  | .ignore w => .ok (whyExit w) { acts := [] }
-  | .keys _ => .ok .cont { acts := [] }
-
-/-- the frame dispatch of `run()` is the model's `classify` (`packet.tcp_packet` / `udp_packet` are the model's `l4`;
-    both checksum functions are the model's `csumOk`); `packet.tls_data[0]` never raises -/
-theorem run_classify_eq_model {κ : Type} (o : MainLoop.Opts) (p : MainLoop.Pkt) :
-    Gen.Py.run_classify (p.l4 == .tcp) (p.l4 == .udp) p.payload o.checksumTest o.greasy p.csumOk p.csumOk =
-      classRes (MainLoop.classify (κ := κ) o (.frame p)) := by
-  unfold Gen.Py.run_classify MainLoop.classify
-  obtain ⟨l4, src, dst, payload, csumOk, tag⟩ := p
-  cases l4 <;> cases payload <;> cases hc : o.checksumTest <;> cases csumOk <;> simp [classRes, whyExit]
-  all_goals split <;> simp_all
-
-example : Gen.Py.run_classify false true [0x43, 1] true false true true = .ok .fall { acts := [.quic] } ∧
-    Gen.Py.run_classify true false [0x16] true false false false = .ok .fall { acts := [] } ∧
-    Gen.Py.run_classify false true [0x03] false false true true = .ok .fall { acts := [] } := by decide
-
-/-! ### tlexport/output_builder.py, tlexport/quic/quic_output_builder.py -/
-
-/-- `OutputBuilder.__init__`: never raises (the `portmap[…]` read is guarded), exports the model's `exportedServerPort`,
-    keeps the client port, falls back to 8080, starts both sequence numbers at 1 -/
-theorem output_builder_init_eq_model (sp cp : Nat) (portmap : Nat → Option Nat) (keep : Bool) :
-    Gen.Py.output_builder_init sp cp portmap keep =
-      .ok () { server_port_ := TcpOut.exportedServerPort keep portmap sp, client_port_ := cp, default_port := 8080,
-               server_seq := 1, client_seq := 1 } := by
-  unfold Gen.Py.output_builder_init TcpOut.exportedServerPort
-  cases keep <;> cases h : portmap sp <;> simp [h, dictGetE]
-
-example : Gen.Py.output_builder_init 443 5000 (fun k => if k = 443 then some 8443 else none) false =
-    .ok () { server_port_ := 8443, client_port_ := 5000, default_port := 8080, server_seq := 1, client_seq := 1 } ∧
-    Gen.Py.output_builder_init 444 5000 (fun k => if k = 443 then some 8443 else none) false =
-    .ok () { server_port_ := 8080, client_port_ := 5000, default_port := 8080, server_seq := 1, client_seq := 1 } := by decide
-
-/-- `QUICOutputbuilder.__init__`: the same port choice -/
-theorem quic_output_builder_init_eq_model (sp cp : Nat) (portmap : Nat → Option Nat) (keep : Bool) :
-    Gen.Py.quic_output_builder_init sp cp portmap keep =
-      .ok () { server_port_ := TcpOut.exportedServerPort keep portmap sp, client_port_ := cp, default_port := 8080 } := by
-  unfold Gen.Py.quic_output_builder_init TcpOut.exportedServerPort
-  cases keep <;> cases h : portmap sp <;> simp [h, dictGetE]
-
-example : Gen.Py.quic_output_builder_init 443 5000 (fun _ => none) true =
-    .ok () { server_port_ := 443, client_port_ := 5000, default_port := 8080 } := by decide
-
-end TLX.Props.Translated
+import TLX.Props.Translated.QuicDissect
+import TLX.Props.Translated.Varint
+import TLX.Props.Translated.Pn
+import TLX.Props.Translated.QuicSess
+import TLX.Props.Translated.Demux
+import TLX.Props.Translated.Ports
+import TLX.Props.Translated.TlsSess
+import TLX.Props.Translated.Reasm
